@@ -82,4 +82,11 @@ CLAIMED = {
               "inside handlers and checks that never two are inside and nothing is torn. Sampled exploration; the isolation schedule is owned only at handler granularity."),
         note="a test-binary death (fatal error such as a double unlock) is reported as a violation with the traced history; Commit's return value for an aborted transaction is not asserted",
     ),
+    "C14": dict(
+        technique="property-based testing with rapid (generated histories) + exhaustive enumeration of the failing store-call index inside each case; oracle = error must surface / result equals fault-free result, no panic, FS view equals the store's real contents",
+        text=("For every generated history (namespace and handle steps) every store call of the fault-free run is failed in turn, on a lazy plain Store (serial fallback) and on the real in-memory store behind a rejecting TransactionStore; "
+              "a rejected Set must always surface as an error, a failed Get/Data/list must surface unless the result is identical to the fault-free one, nothing may panic or hang during or after, and at the end a fresh look-up must show exactly what the store holds. "
+              "Fault indices are exhaustive per history (<=200); histories are sampled."),
+        note="one fault per run; the wrapper for the TransactionStore rejects operations inside the transaction (the mem store itself cannot fail); examples/s3 is not buildable offline, its Store shape is reproduced by the harness's plain store",
+    ),
 }
